@@ -1,0 +1,169 @@
+//go:build verif
+
+package geom
+
+// Contracts for envelopes (C12): closed-interval definitions, join, tightness.
+
+//@ prop C12
+
+//@ pred XYFin(p) = finite(p.X) && finite(p.Y)
+//@ pred EnvOK(e) = e.nonEmpty ==> (XYFin(e.min) && XYFin(e.max) && e.min.X <= e.max.X && e.min.Y <= e.max.Y)
+//@ pred InEnv(e, p) = e.nonEmpty && e.min.X <= p.X && p.X <= e.max.X && e.min.Y <= p.Y && p.Y <= e.max.Y
+//@ pred EnvCovers(a, b) = a.nonEmpty && b.nonEmpty && a.min.X <= b.min.X && a.min.Y <= b.min.Y && b.max.X <= a.max.X && b.max.Y <= a.max.Y
+//@ pred EnvMeet(a, b) = a.nonEmpty && b.nonEmpty && max(a.min.X, b.min.X) <= min(a.max.X, b.max.X) && max(a.min.Y, b.min.Y) <= min(a.max.Y, b.max.Y)
+//@ pred EnvJoin(r, a, b) = r.nonEmpty && r.min.X == min(a.min.X, b.min.X) && r.min.Y == min(a.min.Y, b.min.Y) && r.max.X == max(a.max.X, b.max.X) && r.max.Y == max(a.max.Y, b.max.Y)
+
+//@ func newUncheckedEnvelope
+//@   ensures result.nonEmpty && same(result.min, minXY) && same(result.max, maxXY)
+
+//@ func Envelope.IsEmpty
+//@   ensures result <==> !e.nonEmpty
+
+//@ func Envelope.IsPoint
+//@   requires EnvOK(e)
+//@   ensures result <==> (e.nonEmpty && e.min.X == e.max.X && e.min.Y == e.max.Y)
+
+//@ func Envelope.IsLine
+//@   requires EnvOK(e)
+//@   ensures result <==> (e.nonEmpty && ((e.min.X == e.max.X && e.min.Y < e.max.Y) || (e.min.X < e.max.X && e.min.Y == e.max.Y)))
+
+//@ func Envelope.IsRectangle
+//@   requires EnvOK(e)
+//@   ensures result <==> (e.nonEmpty && e.min.X < e.max.X && e.min.Y < e.max.Y)
+
+//@ lemma env_classes_partition: forall e: Envelope :: EnvOK(e) && e.nonEmpty ==> ((e.IsPoint() && !e.IsLine() && !e.IsRectangle()) || (!e.IsPoint() && e.IsLine() && !e.IsRectangle()) || (!e.IsPoint() && !e.IsLine() && e.IsRectangle()))
+//@ lemma env_empty_no_class: forall e: Envelope :: !e.nonEmpty ==> !e.IsPoint() && !e.IsLine() && !e.IsRectangle()
+
+//@ func Envelope.MinMaxXYs
+//@   ensures result2 <==> e.nonEmpty
+//@   ensures e.nonEmpty ==> same(result0, e.min) && same(result1, e.max)
+
+//@ func Envelope.ExpandToIncludeXY
+//@   requires EnvOK(e) && XYFin(xy)
+//@   ensures EnvOK(result) && InEnv(result, xy)
+//@   ensures !e.nonEmpty ==> result.min == xy && result.max == xy
+//@   ensures e.nonEmpty ==> EnvCovers(result, e)
+//@   ensures e.nonEmpty ==> (result.min.X == xy.X || result.min.X == e.min.X) && (result.min.Y == xy.Y || result.min.Y == e.min.Y) && (result.max.X == xy.X || result.max.X == e.max.X) && (result.max.Y == xy.Y || result.max.Y == e.max.Y)
+
+//@ func Envelope.ExpandToIncludeEnvelope
+//@   requires EnvOK(e) && EnvOK(o)
+//@   ensures EnvOK(result)
+//@   ensures !e.nonEmpty ==> same(result, o)
+//@   ensures e.nonEmpty && !o.nonEmpty ==> same(result, e)
+//@   ensures e.nonEmpty && o.nonEmpty ==> EnvJoin(result, e, o) && EnvCovers(result, e) && EnvCovers(result, o)
+
+//@ func Envelope.Contains
+//@   requires EnvOK(e)
+//@   ensures result <==> (XYFin(p) && InEnv(e, p))
+
+//@ func Envelope.Intersects
+//@   requires EnvOK(e) && EnvOK(o)
+//@   ensures result <==> EnvMeet(e, o)
+
+//@ func Envelope.Covers
+//@   requires EnvOK(e) && EnvOK(o)
+//@   ensures result <==> EnvCovers(e, o)
+
+//@ func Envelope.Width
+//@   requires EnvOK(e)
+//@   ensures !e.nonEmpty ==> result == 0
+//@   ensures e.nonEmpty ==> result >= 0 && same(result, e.max.X - e.min.X)
+
+//@ func Envelope.Height
+//@   requires EnvOK(e)
+//@   ensures !e.nonEmpty ==> result == 0
+//@   ensures e.nonEmpty ==> result >= 0 && same(result, e.max.Y - e.min.Y)
+
+//@ pred Mag(v) = -1e150 <= v && v <= 1e150
+//@ pred EnvSmall(e) = e.nonEmpty ==> Mag(e.min.X) && Mag(e.min.Y) && Mag(e.max.X) && Mag(e.max.Y)
+//@ pred EnvEq(a, b) = (!a.nonEmpty && !b.nonEmpty) || (a.nonEmpty && b.nonEmpty && a.min == b.min && a.max == b.max)
+
+//@ func Envelope.Area
+//@   timeout 60
+//@   requires EnvOK(e) && EnvSmall(e)
+//@   ensures !e.nonEmpty ==> result == 0
+//@   ensures e.nonEmpty ==> result >= 0
+
+//@ func Envelope.Distance
+//@   timeout 60
+//@   requires EnvOK(e) && EnvOK(o)
+//@   ensures result1 <==> (e.nonEmpty && o.nonEmpty)
+//@   ensures result1 ==> result0 >= 0
+
+//@ func Envelope.AsBox
+//@   ensures result1 <==> e.nonEmpty
+//@   ensures same(result0.MinX, e.min.X) && same(result0.MinY, e.min.Y) && same(result0.MaxX, e.max.X) && same(result0.MaxY, e.max.Y)
+
+//@ func Envelope.TransformXY
+//@   requires EnvOK(e) && fn != nil
+//@   ensures result.nonEmpty <==> e.nonEmpty
+
+//@ func NewEnvelope
+//@   requires forall k :: 0 <= k && k < len(xys) ==> XYFin(xys[k])
+//@   ensures EnvOK(result)
+//@   ensures result.nonEmpty <==> len(xys) > 0
+//@   ensures forall k :: 0 <= k && k < len(xys) ==> InEnv(result, xys[k])
+//@   ensures len(xys) > 0 ==> (exists k :: 0 <= k && k < len(xys) && result.min.X == xys[k].X) && (exists k :: 0 <= k && k < len(xys) && result.min.Y == xys[k].Y) && (exists k :: 0 <= k && k < len(xys) && result.max.X == xys[k].X) && (exists k :: 0 <= k && k < len(xys) && result.max.Y == xys[k].Y)
+//@   loop 0 invariant -1 <= rangeindex && rangeindex < len(xys) && EnvOK(env) && (env.nonEmpty <==> rangeindex >= 0)
+//@   loop 0 invariant forall k :: 0 <= k && k <= rangeindex ==> InEnv(env, xys[k])
+//@   loop 0 invariant rangeindex >= 0 ==> (exists k :: 0 <= k && k <= rangeindex && env.min.X == xys[k].X) && (exists k :: 0 <= k && k <= rangeindex && env.min.Y == xys[k].Y) && (exists k :: 0 <= k && k <= rangeindex && env.max.X == xys[k].X) && (exists k :: 0 <= k && k <= rangeindex && env.max.Y == xys[k].Y)
+
+// ---- envelope algebra (closed-interval laws), proved over the real methods ----
+
+//@ lemma join_commutative: forall a: Envelope, b: Envelope :: EnvOK(a) && EnvOK(b) ==> EnvEq(a.ExpandToIncludeEnvelope(b), b.ExpandToIncludeEnvelope(a))
+//@ lemma join_idempotent: forall a: Envelope :: EnvOK(a) && a.nonEmpty ==> EnvEq(a.ExpandToIncludeEnvelope(a), a)
+//@ lemma join_associative: forall a: Envelope, b: Envelope, c: Envelope :: EnvOK(a) && EnvOK(b) && EnvOK(c) ==> EnvEq(a.ExpandToIncludeEnvelope(b).ExpandToIncludeEnvelope(c), a.ExpandToIncludeEnvelope(b.ExpandToIncludeEnvelope(c)))
+//@ lemma empty_is_join_identity: forall a: Envelope, z: Envelope :: EnvOK(a) && !z.nonEmpty ==> EnvEq(a.ExpandToIncludeEnvelope(z), a) && EnvEq(z.ExpandToIncludeEnvelope(a), a)
+//@ lemma intersects_symmetric: forall a: Envelope, b: Envelope :: EnvOK(a) && EnvOK(b) ==> (a.Intersects(b) <==> b.Intersects(a))
+//@ lemma covers_implies_intersects: forall a: Envelope, b: Envelope :: EnvOK(a) && EnvOK(b) && a.Covers(b) ==> a.Intersects(b)
+//@ lemma covers_reflexive: forall a: Envelope :: EnvOK(a) && a.nonEmpty ==> a.Covers(a)
+//@ lemma covers_transitive: forall a: Envelope, b: Envelope, c: Envelope :: EnvOK(a) && EnvOK(b) && EnvOK(c) && a.Covers(b) && b.Covers(c) ==> a.Covers(c)
+//@ lemma covers_antisymmetric: forall a: Envelope, b: Envelope :: EnvOK(a) && EnvOK(b) && a.Covers(b) && b.Covers(a) ==> a.min == b.min && a.max == b.max
+//@ lemma empty_absorbs: forall a: Envelope, z: Envelope, p: XY :: !z.nonEmpty ==> !z.Intersects(a) && !a.Intersects(z) && !z.Covers(a) && !a.Covers(z) && !z.Contains(p)
+//@ lemma join_covers_operands: forall a: Envelope, b: Envelope :: EnvOK(a) && EnvOK(b) && a.nonEmpty && b.nonEmpty ==> a.ExpandToIncludeEnvelope(b).Covers(a) && a.ExpandToIncludeEnvelope(b).Covers(b)
+//@ lemma contains_matches_covers: forall a: Envelope, p: XY :: EnvOK(a) && XYFin(p) ==> (a.Contains(p) <==> a.Covers(newUncheckedEnvelope(p, p)))
+//@ lemma distance_zero_iff_intersects mode=real: forall a: Envelope, b: Envelope :: EnvOK(a) && EnvOK(b) && a.nonEmpty && b.nonEmpty ==> ((a.Distance(b).0 == 0) <==> a.Intersects(b))
+//@ lemma distance_symmetric mode=real: forall a: Envelope, b: Envelope :: EnvOK(a) && EnvOK(b) ==> a.Distance(b).0 == b.Distance(a).0 && (a.Distance(b).1 <==> b.Distance(a).1)
+//@ lemma width_height_area mode=real: forall a: Envelope :: EnvOK(a) ==> a.Area() == a.Width() * a.Height()
+//@ lemma center_is_midpoint mode=real: forall a: Envelope :: EnvOK(a) && a.nonEmpty ==> a.Center().coords.X * 2 == a.min.X + a.max.X && a.Center().coords.Y * 2 == a.min.Y + a.max.Y && a.Center().full && a.Center().coords.Type == 0
+//@ lemma center_empty: forall a: Envelope :: !a.nonEmpty ==> !a.Center().full
+
+// ---- envelopes of geometries: tight over the control points ----
+
+//@ pred SeqFin(s) = forall k :: 0 <= k && k < len(s.floats) ==> finite(s.floats[k])
+//@ pred PX(s, p) = s.floats[p*Dim(s.ctype)]
+//@ pred PY(s, p) = s.floats[p*Dim(s.ctype)+1]
+//@ pred SeqInEnv(e, s) = forall p :: 0 <= p && p < NPts(s) ==> e.min.X <= PX(s, p) && PX(s, p) <= e.max.X && e.min.Y <= PY(s, p) && PY(s, p) <= e.max.Y
+//@ pred SeqTouches(e, s) = (exists p :: 0 <= p && p < NPts(s) && e.min.X == PX(s, p)) && (exists p :: 0 <= p && p < NPts(s) && e.max.X == PX(s, p)) && (exists p :: 0 <= p && p < NPts(s) && e.min.Y == PY(s, p)) && (exists p :: 0 <= p && p < NPts(s) && e.max.Y == PY(s, p))
+
+//@ func Sequence.Envelope
+//@   split s.ctype 0 1 2 3
+//@   requires SeqInv(s) && SeqFin(s)
+//@   ensures EnvOK(result) && (result.nonEmpty <==> len(s.floats) > 0)
+//@   ensures result.nonEmpty ==> SeqInEnv(result, s) && SeqTouches(result, s)
+//@   loop 0 invariant stride == Dim(s.ctype) && stride <= i && i <= len(s.floats) && i % stride == 0 && len(s.floats) > 0
+//@   loop 0 invariant XYFin(lower) && XYFin(upper) && lower.X <= upper.X && lower.Y <= upper.Y
+//@   loop 0 invariant forall p :: 0 <= p && p*stride < i ==> lower.X <= PX(s, p) && PX(s, p) <= upper.X && lower.Y <= PY(s, p) && PY(s, p) <= upper.Y
+//@   loop 0 invariant (exists p :: 0 <= p && p*stride < i && lower.X == PX(s, p)) && (exists p :: 0 <= p && p*stride < i && upper.X == PX(s, p)) && (exists p :: 0 <= p && p*stride < i && lower.Y == PY(s, p)) && (exists p :: 0 <= p && p*stride < i && upper.Y == PY(s, p))
+
+//@ func Point.Envelope
+//@   requires p.full ==> XYFin(p.coords.XY)
+//@   ensures EnvOK(result) && (result.nonEmpty <==> p.full)
+//@   ensures p.full ==> result.min == p.coords.XY && result.max == p.coords.XY
+
+//@ func LineString.Envelope
+//@   requires SeqInv(s.seq) && SeqFin(s.seq)
+//@   ensures EnvOK(result) && (result.nonEmpty <==> len(s.seq.floats) > 0)
+//@   ensures result.nonEmpty ==> SeqInEnv(result, s.seq) && SeqTouches(result, s.seq)
+
+//@ pred PtFin(p) = p.full ==> XYFin(p.coords.XY)
+//@ func MultiPoint.Envelope
+//@   requires forall k :: 0 <= k && k < len(m.points) ==> PtFin(m.points[k])
+//@   ensures EnvOK(result)
+//@   ensures result.nonEmpty <==> (exists k :: 0 <= k && k < len(m.points) && m.points[k].full)
+//@   ensures forall k :: 0 <= k && k < len(m.points) && m.points[k].full ==> InEnv(result, m.points[k].coords.XY)
+//@   ensures result.nonEmpty ==> (exists k :: 0 <= k && k < len(m.points) && m.points[k].full && result.min.X == m.points[k].coords.X) && (exists k :: 0 <= k && k < len(m.points) && m.points[k].full && result.max.X == m.points[k].coords.X) && (exists k :: 0 <= k && k < len(m.points) && m.points[k].full && result.min.Y == m.points[k].coords.Y) && (exists k :: 0 <= k && k < len(m.points) && m.points[k].full && result.max.Y == m.points[k].coords.Y)
+//@   loop 0 invariant -1 <= rangeindex && rangeindex < len(m.points) && EnvOK(env)
+//@   loop 0 invariant env.nonEmpty <==> (exists k :: 0 <= k && k <= rangeindex && m.points[k].full)
+//@   loop 0 invariant forall k :: 0 <= k && k <= rangeindex && m.points[k].full ==> InEnv(env, m.points[k].coords.XY)
+//@   loop 0 invariant env.nonEmpty ==> (exists k :: 0 <= k && k <= rangeindex && m.points[k].full && env.min.X == m.points[k].coords.X) && (exists k :: 0 <= k && k <= rangeindex && m.points[k].full && env.max.X == m.points[k].coords.X) && (exists k :: 0 <= k && k <= rangeindex && m.points[k].full && env.min.Y == m.points[k].coords.Y) && (exists k :: 0 <= k && k <= rangeindex && m.points[k].full && env.max.Y == m.points[k].coords.Y)
